@@ -111,6 +111,16 @@ static void v_access(int how, int index, int act) {
     if (act == 1) memcpy(mel(pos), EBUF, ES);
     if (act >= 2) m_del(pos);
 }
+/* a capacity that can not be had (more bytes than the address space, or a byte count that does not fit size_t) must be refused without any effect */
+static void v_resize_absurd(bool wraps) {
+    size_t k = wraps ? SIZE_MAX / ES + 2 : SIZE_MAX / ES / 4, oldmax = V->max;
+    if (wraps && ES < 2) return;
+    vf_log("resize(%zu) [%s] n=%d max=%zu", k, wraps ? "byte count wraps" : "unallocatable", MN, V->max);
+    errno = 0; bool r = V->resize(V, k);
+    vf_count(wraps ? "resize_wrapping_byte_count" : "resize_unallocatable", 1);
+    if (r) { judge("C10", "resize-absurd-accepted", "resize(%zu) of %zu-byte elements returned true (capacity now %zu)", k, (size_t)ES, V->max); return; }
+    if (V->max != oldmax) judge("C10", "resize-refused-capacity", "refused resize changed the capacity from %zu to %zu", oldmax, V->max);
+}
 static void v_resize(size_t k) {
     vf_log("resize(%zu) n=%d max=%zu", k, MN, V->max);
     bool r = V->resize(V, k);
@@ -184,6 +194,7 @@ static void history(long caseno) {
         else if (c < 79) v_walk(rng_chance(&R, 1, 2));
         else if (c < 84) v_toarray();
         else if (c < 88) { vf_log("reverse"); V->reverse(V); for (int i = 0; i < MN / 2; i++) { unsigned char t[80]; memcpy(t, mel(i), ES); memcpy(mel(i), mel(MN - 1 - i), ES); memcpy(mel(MN - 1 - i), t, ES); } vf_count("reversals", 1); }
+        else if (c < 97 && rng_chance(&R, 1, 8)) v_resize_absurd(rng_chance(&R, 1, 2));
         else if (c < 97) { uint32_t w = rng_below(&R, 6); v_resize(w == 0 ? 0 : w == 1 ? (size_t)MN : w == 2 && MN ? (size_t)rng_below(&R, (uint32_t)MN) : (size_t)MN + 1 + rng_below(&R, 8)); }
         else if (c < 98) { vf_log("clear"); V->clear(V); MN = 0; vf_count("clear", 1); }
         else { vf_log("invalid"); errno = 0; if (V->addlast(V, NULL) || errno != EINVAL) judge("C10", "einval", "addlast(NULL) accepted"); vf_count("invalid_arg_calls", 1); }
